@@ -635,7 +635,7 @@ class CommitRun:
         self.commits = []
         self.ops = []
         self.ids = {}
-        if kind == "worktree":
+        if kind in ("worktree", "porcelain"):
             from dulwich.repo import Repo
             r = Repo.init(self.root)
             self.tree = r.object_store.add_object  # placeholder
@@ -670,12 +670,18 @@ class CommitRun:
 
     def actor(self, a):
         def body():
-            if self.kind == "worktree":
+            if self.kind in ("worktree", "porcelain"):
                 from dulwich.repo import Repo
                 r = Repo(self.root)
                 commit = lambda: r.get_worktree().commit(
                     message=b"by %d" % a, committer=b"a <a@b>", author=b"a <a@b>", commit_timestamp=10 + a,
                     commit_timezone=0, author_timestamp=10 + a, author_timezone=0, tree=self.tree_id)
+                if self.kind == "porcelain":
+                    # the command-level entry point: the tree comes from the (empty) index
+                    from dulwich import porcelain
+                    commit = lambda: porcelain.commit(
+                        r, message=b"by %d" % a, committer=b"a <a@b>", author=b"a <a@b>", commit_timestamp=10 + a,
+                        commit_timezone=0, author_timestamp=10 + a, author_timezone=0, sign=False)
                 store = r.object_store
             else:
                 r = self.mem
@@ -700,7 +706,7 @@ class CommitRun:
             self.world.note("retop")
             rec["r"] = self.world.seq
             self.ops.append(rec)
-            if self.kind == "worktree":
+            if self.kind in ("worktree", "porcelain"):
                 r.close()
         return body
 
@@ -727,7 +733,7 @@ class CommitRun:
                 for name, orig in patched:
                     setattr(DictRefsContainer, name, orig)
         self.sched = s
-        if self.kind == "worktree":
+        if self.kind in ("worktree", "porcelain"):
             from dulwich.repo import Repo
             r = Repo(self.root)
             tip = r.refs[b"HEAD"]
@@ -1012,6 +1018,8 @@ def run(ctx):
     for kind, n, packed, maxp, limit in [("worktree", 2, False, ctx.pick(2, 3), ctx.pick(250, 6000)),
                                          ("worktree", 2, True, ctx.pick(2, 3), ctx.pick(120, 6000)),
                                          ("worktree", 3, False, ctx.pick(1, 2), ctx.pick(120, 6000)),
+                                         ("porcelain", 2, False, ctx.pick(1, 2), ctx.pick(150, 4000)),
+                                         ("porcelain", 2, True, ctx.pick(1, 2), ctx.pick(100, 4000)),
                                          ("memory", 2, False, 3, None), ("memory", 3, False, 2, ctx.pick(150, 5000))]:
         def run_once(prefix, kind=kind, n=n, packed=packed):
             r = CommitRun(ctx, kind, n, packed)
@@ -1024,7 +1032,7 @@ def run(ctx):
             ncommit += 1
             t = r.trace(tid)
             traces.append(t)
-            site = "dulwich/worktree.py:WorkTree.commit" if kind == "worktree" else "dulwich/repo.py:MemoryRepo.do_commit"
+            site = {"worktree": "dulwich/worktree.py:WorkTree.commit", "porcelain": "dulwich/porcelain:commit"}.get(kind, "dulwich/repo.py:MemoryRepo.do_commit")
             meta[tid] = {"sig": f"{site}|LostCommit|actors={n} packed={packed}",
                          "desc": f"{n} concurrent commits ({kind}): {r.commits} tip={r.tip} results={[(o['res'], o.get('excname')) for o in r.ops]}",
                          "choices": s.choices(), "kind": kind}
